@@ -4,7 +4,7 @@ is true and the values never change; wait() returns the exit code; PopenSpawn.wa
 mapping; run(..., withexitstatus=True)."""
 from symx.spec import obligation, Int, OptInt, Bool, SKIP
 from harness.common import Skip, patched, pick, Clock
-from harness.world import ProcWorld, Hang, make_pty_spawn, REAPED, ZOMBIE
+from harness.world import ProcWorld, Hang, make_pty_spawn, REAPED, ZOMBIE, disarm
 from pexpect.exceptions import EOF, TIMEOUT, ExceptionPexpect
 import pexpect.pty_spawn as PS
 import pexpect.popen_spawn as PO
@@ -54,7 +54,7 @@ def S1_pty_fate(code, sig, core, signaled, exit_at, ign_hup, ign_int, o0, o1, o2
     seen = False
     frozen = None
     tag = 4
-    with patched(PP, os=w, time=clk), patched(PS, os=w, time=clk), patched(SB, os=w):
+    with patched(PP, os=w, time=clk), patched(PS, os=w, time=clk), patched(SB, os=w), disarm(pt):
         for o in (pick(o0, 0, 5), pick(o1, 0, 5), pick(o2, 0, 5)):
             try:
                 if o == 0:
@@ -155,10 +155,13 @@ def S3_run_exitstatus(code, sig, signaled, withexit, tneg, exit_at):
         sp, pt = make_pty_spawn(w, **{k: v for k, v in kw.items() if k in ('timeout', 'maxread', 'logfile', 'encoding')})
         sp.expect = lambda patterns, **k: (_ for _ in ()).throw(EOF('done'))
         sp.before = b'output'
-        factory.sp = sp
+        factory.sp, factory.pt = sp, pt
         return sp
     with patched(RUN, spawn=factory), patched(PP, os=w, time=clk), patched(PS, os=w, time=clk):
-        r = RUN.run('cmd', withexitstatus=withexit, timeout=-1 if tneg else 5)
+        try:
+            r = RUN.run('cmd', withexitstatus=withexit, timeout=-1 if tneg else 5)
+        finally:
+            factory.pt.closed = True
     sp = factory.sp
     if withexit:
         if not isinstance(r, tuple) or r[0] != b'output':
